@@ -86,6 +86,7 @@ let show_interp (a: atok list list) : Stdlib.String.t =
 (* the HashSet pass over bounds: duplicates removed (order is normalised by sorting on both sides) *)
 let rec nodup = function [] -> [] | x :: r -> x :: nodup (List.filter (fun y -> y <> x) r)
 let rec depth_tt l = List.fold_left (fun acc t -> acc + (match t with TG (_, inner) -> 1 + depth_tt inner | _ -> 1)) 0 l
+let parsed_items : (Stdlib.String.t, data) Hashtbl.t = Hashtbl.create 64
 let () =
   iter_lines Sys.argv.(1) (fun line ->
     match split_ws line with
@@ -110,6 +111,7 @@ let () =
       let r = match pd with
         | Ok (DStruct st, _) -> show_struct st | Ok (DEnum e, _) -> show_enum e | Panic -> "PANIC" | Unsup -> "UNSUP" | Fuel -> "FUEL" in
       Printf.printf "ITEM %s PARSED %s\n" name r;
+      (match pd with Ok (d, _) -> Hashtbl.replace parsed_items name d | _ -> ());
       (match pd with
        | Ok (DStruct st, _) ->
            Printf.printf "ITEM %s INTERP %s\n" name (show_interp st.s_attrs);
@@ -120,4 +122,13 @@ let () =
                           (String.concat "" (List.map (fun x -> "[ " ^ show_tts x ^ "] ") (wraps_list f.f_ty)))
                           (show_tts (match f.f_ty with Ty (c, _, _, _) -> pr_cat c))) st.s_fields
        | _ -> ())
+    | "ITEM" :: name :: "HCFG" :: flags ->
+      (* the item headers of the expansion (coq/parse/ParseHeader.v) under the feature set the implementation was built with *)
+      let on k = List.mem (k ^ "=1") flags in
+      (match Hashtbl.find_opt parsed_items name with
+       | None -> ()
+       | Some d ->
+           let hs = headers { h_dbg = on "dbg"; h_ns = on "ns"; h_sd = on "sd" } (on "gs") d in
+           List.iteri (fun k h -> Printf.printf "ITEM %s HDR%d %s\n" name k (show_tts h)) hs;
+           Printf.printf "ITEM %s HDRN %d\n" name (List.length hs))
     | _ -> ())
